@@ -21,6 +21,10 @@ type Finding struct {
 	Commit      string   `json:"commit,omitempty"`
 	PinnedBy    []string `json:"pinned_by,omitempty"`
 	Witness     string   `json:"witness,omitempty"`
+	// Observed: what the code is known to do inside the region (a postcondition over the same names as the
+	// clause). Inside the region the check proves Observed instead of the clause, so any OTHER deviation
+	// at the same obligation is still reported.
+	Observed string `json:"observed,omitempty"`
 }
 
 func main() {
